@@ -358,18 +358,24 @@ func (c *minecraftConn) bufferPacket(packet proto.Packet, canQueue bool) (err er
 		}
 	}()
 	if canQueue {
+		// Hold the lock across queueing and writing so that a state change
+		// (which activates or releases the queue under the same lock) can not
+		// slip in between the queue decision and the write.
 		c.mu.Lock()
-		playPacketQueue := c.playPacketQueue
-		c.mu.Unlock()
-		queued, queueErr := playPacketQueue.Queue(packet)
+		queued, queueErr := c.playPacketQueue.Queue(packet)
 		if queueErr != nil {
+			c.mu.Unlock()
 			return queueErr
 		}
 		if queued {
+			c.mu.Unlock()
 			// Packet was queued, don't write it now
 			c.log.V(1).Info("queued packet", "packet", fmt.Sprintf("%T", packet))
 			return nil
 		}
+		_, err = c.wr.WritePacket(packet)
+		c.mu.Unlock()
+		return err
 	}
 	_, err = c.wr.WritePacket(packet)
 	return err
@@ -544,9 +550,8 @@ func (c *minecraftConn) SetOutboundState(s *state.Registry) {
 }
 
 func (c *minecraftConn) EnablePlayPacketQueue() {
-	if c.mu.TryLock() {
-		defer c.mu.Unlock()
-	}
+	c.mu.Lock()
+	defer c.mu.Unlock()
 	c.activatePlayPacketQueue()
 }
 
